@@ -47,7 +47,14 @@ impl<'r> Data<'r> {
             if src.is_empty() {
                 None
             } else {
-                Some(parse_field(&mut src))
+                let result = parse_field(&mut src);
+
+                // A failed parse does not necessarily advance the source. Stop after the error.
+                if result.is_err() {
+                    src = &[];
+                }
+
+                Some(result)
             }
         })
     }
